@@ -23,6 +23,10 @@ def _make_camelcase(name: str) -> str:
 
 
 def rename_class(name: str, *, private: bool) -> str:
+    if not name.isascii():
+        # The words of the name are only found among ascii letters
+        return name
+
     name = re.sub("_{1,}", "_", name)
     if len(name) == 0:
         raise ValueError("Cannot rename empty name")
@@ -42,6 +46,10 @@ def rename_variable(variable: str, *, static: bool, private: bool) -> str:
         return variable
 
     if variable.startswith("__") and variable.endswith("__"):
+        return variable
+
+    if not variable.isascii():
+        # The words of the name are only found among ascii letters
         return variable
 
     renamed_variable = _make_snakecase(variable, uppercase=static)
